@@ -43,7 +43,7 @@ var impWants = []impWant{
 	{dir: "sequtil", pkg: "sequtil",
 		funcs: []string{"Ntoi", "Iton", "complementByte", "ReverseComplement", "DNATo2Bit", "DNAFrom2Bit",
 			"CanonicalSubsequences", "Translate", "TranslateReadingFrames", "ReverseComplementString", "AminoName",
-			"init@sequtil.go#0", "init@sequtil.go#1"},
+			"init@sequtil.go#0", "init@sequtil.go#1", "var:codonToAmino", "var:aminoToName"},
 		globals: map[string]string{"ntoi": "g_sequtil_ntoi", "complementBytes": "g_sequtil_complementBytes",
 			"dnaFrom2bit": "g_sequtil_dnaFrom2bit", "codonToAmino": "g_sequtil_codonToAmino",
 			"aminoToName": "g_sequtil_aminoToName"}},
@@ -629,6 +629,13 @@ func (t *impTr) ex(e ast.Expr, pre *[]opener) string {
 		case *types.Array:
 			if u.Len() == 2 && len(e.Elts) == 2 {
 				return "(" + t.ex(e.Elts[0], pre) + ", " + t.ex(e.Elts[1], pre) + ")"
+			}
+			if int(u.Len()) == len(e.Elts) {
+				parts := make([]string, len(e.Elts))
+				for i, el := range e.Elts {
+					parts[i] = t.ex(el, pre)
+				}
+				return "[" + strings.Join(parts, "; ") + "]"
 			}
 		case *types.Map, *types.Slice:
 			if len(e.Elts) == 0 {
@@ -2712,6 +2719,44 @@ func genImp(repo, out string) {
 			records: map[string]bool{}, join: want.join, floatAs: want.floatAs, errZ: want.errZ}
 		fmt.Fprintf(sb, "(* ---- package %s ---- *)\n", want.dir)
 		for _, fname := range want.funcs {
+			if strings.HasPrefix(fname, "var:") { // the initialiser of a package-level variable, as a constant
+				vn := strings.TrimPrefix(fname, "var:")
+				found := false
+				for _, f := range files {
+					for _, d := range f.Decls {
+						gd, ok := d.(*ast.GenDecl)
+						if !ok || gd.Tok != token.VAR {
+							continue
+						}
+						for _, sp := range gd.Specs {
+							vs := sp.(*ast.ValueSpec)
+							for i, n := range vs.Names {
+								if n.Name != vn || i >= len(vs.Values) {
+									continue
+								}
+								t.names = map[types.Object]string{}
+								t.tupleTys = map[string]string{}
+								t.used = map[string]int{}
+								t.fnName = fname
+								body := &strings.Builder{}
+								t.out = body
+								var pre []opener
+								x := t.ex(vs.Values[i], &pre)
+								if len(pre) > 0 {
+									t.fail(vs, "a package-level initialiser that can panic")
+								}
+								fmt.Fprintf(body, "Definition imp_%s_var_%s : %s :=\n  %s.\n\n", want.pkg, vn, t.ty(info.Defs[n].Type()), x)
+								sb.WriteString(body.String())
+								found = true
+							}
+						}
+					}
+				}
+				if !found {
+					panic("variable not found: " + want.dir + " " + vn)
+				}
+				continue
+			}
 			recv, name := "", fname
 			initFile, initIdx := "", -1
 			if strings.HasPrefix(fname, "init@") { // init@file.go#k : the k-th init function of that file
